@@ -63,7 +63,7 @@ REHC = ("janet_table_rehash replaced by its contract (proved of the real functio
 SMALLOC = "janet_smalloc / janet_sfree (scratch memory of stack-flagged tables, gc.c) modelled as malloc / free"
 T = dict(src=["table.c"], link=["wrap.c", "util.c"], link_keep={"util.c": ["janet_tablen"]}, harness=["tab_table.c"])
 KOF = {1: 2, 2: 3, 4: 4, 8: 6}          # key universe per capacity: more keys than a table under the load clause can hold (+2)
-NEWMAX = {1: 4, 2: 8, 4: 8, 8: 16}      # janet_tablen(2*count+2) for count <= cap/2
+NEWMAX = {1: 4, 2: 8, 4: 8, 8: 8}       # janet_tablen(2*count+2) for count <= cap/2; capacity 8: growth to 16 (count 3, 4) not decided within 10 min, units not delivered
 
 def tbound(cap, extra=""):
     return ("capacity %d: ALL well-formed tables (any mix of live, tombstone and empty buckets allowed by the load clause, i.e. up to %d entries); abstract universe of %d pairwise different keys "
@@ -107,6 +107,8 @@ for cap in (1, 2, 4, 8):
     # ---- put, calls that rehash: a new key into a table at the load limit, one unit per count (new capacity is then a constant)
     for c in range(0, cap // 2 + 1):
         size = GROW_SIZE(c)
+        if size > NEWMAX[cap]:
+            continue
         kk = max(2, c + 1)      # the c present keys and the new one (keys are interchangeable: the hash function is arbitrary)
         muts = [PUT_M[0], SIZE_M] + ([PUT_M[1]] if c < cap // 2 else [])
         unit("tab.put.cap%d.grow.c%d" % (cap, c),
@@ -114,7 +116,7 @@ for cap in (1, 2, 4, 8):
              "h_table_put", tier=tier if size <= 8 else "thorough", timeout=to if size <= 8 else 600,
              bound="capacity %d, count %d, deleted %d (every such well-formed table); new capacity %d; abstract universe of %d pairwise different keys with an arbitrary hash function; arbitrary value words" % (cap, c, cap // 2 - c, size, kk),
              defines=["-DTAB_CAP=%d" % cap, "-DTAB_K=%d" % kk, "-DTAB_NEWMAX=%d" % NEWMAX[cap], "-DTAB_PUT_COUNT=%d" % c], unwind=max(size, cap, kk + 1) + 2, cbmc=CAD,
-             functions=["janet_table_put", "janet_table_find"], replace_calls=["janet_table_rehash:tab_rehash_contract"], assumes=[KEYS, WFT, FINDC, REHC], mutants=muts, **T)
+             functions=["janet_table_put", "janet_table_find"], replace_calls=["janet_table_rehash:tab_rehash_contract"], assumes=[KEYS, WFT, FINDC, REHC], mutants=muts if cap <= 4 else muts[:1], **T)
     if cap == 1:
         # a well-formed table of capacity 1 is empty (load clause): remove / rawget / clear have nothing to act on there
         # (every mutant is equivalent), the capacity-1 state - the fresh @{} - matters for put and rehash only
@@ -150,7 +152,7 @@ for cap in (1, 2, 4, 8):
              bound="old capacity %d (every well-formed table), new size the powers of two in [max(count,%d), %d]; abstract universe of %d keys with an arbitrary hash function; both allocation flavours (heap, scratch)" % (cap, lo, hi, kr),
              defines=["-DTAB_CAP=%d" % cap, "-DTAB_K=%d" % kr, "-DTAB_NEWMAX=%d" % NEWMAX[cap], "-DTAB_SIZE_MIN=%d" % lo, "-DTAB_SIZE_MAX=%d" % hi],
              unwind=max(hi, cap, kr + 1) + 2, cbmc=CAD, functions=["janet_table_rehash", "janet_table_find", "janet_memalloc_empty_local"],
-             assumes=[KEYS, WFT, FINDC, SMALLOC, "janet_memalloc_empty (wrap.c) is the real function on CBMC's malloc"], mutants=muts, **T)
+             assumes=[KEYS, WFT, FINDC, SMALLOC, "janet_memalloc_empty (wrap.c) is the real function on CBMC's malloc"], mutants=muts if cap <= 4 else muts[2:], **T)
 
 for cap, pcap, chain, tier in ((2, 2, 3, "quick"), (4, 2, 3, "quick"), (8, 4, 3, "thorough")):
     k = KOF[cap]
